@@ -75,6 +75,8 @@ def match_known(known, prop, sig):
         for k, v in f["match"].items():
             if k == "ops_contain":
                 ok = isinstance(sig.get("ops"), list) and _contains(v, sig["ops"])
+            elif k == "ops_contain_any":
+                ok = isinstance(sig.get("ops"), list) and any(_contains(alt, sig["ops"]) for alt in v)
             elif k.endswith("_in"):
                 ok = sig.get(k[:-3]) in v
             else:
